@@ -28,16 +28,16 @@ func (r *recSink) Write(p []byte) (int, error) {
 }
 
 type OutCase struct {
-	Kind      string     `json:"kind"` // gunit | punit | grun | prun
-	Begin     string     `json:"begin,omitempty"`
-	End       string     `json:"end,omitempty"`
-	ErrorOnly bool       `json:"error_only,omitempty"`
-	Prefix    string     `json:"prefix,omitempty"`
-	Cmds      []OutCmd   `json:"cmds"`
-	Schedule  []string   `json:"schedule,omitempty"`
-	Sink      [][]byte   `json:"-"`
-	SinkStr   []string   `json:"sink"`
-	Seed      int64      `json:"seed"`
+	Kind      string   `json:"kind"` // gunit | punit | grun | prun
+	Begin     string   `json:"begin,omitempty"`
+	End       string   `json:"end,omitempty"`
+	ErrorOnly bool     `json:"error_only,omitempty"`
+	Prefix    string   `json:"prefix,omitempty"`
+	Cmds      []OutCmd `json:"cmds"`
+	Schedule  []string `json:"schedule,omitempty"`
+	Sink      [][]byte `json:"-"`
+	SinkStr   []string `json:"sink"`
+	Seed      int64    `json:"seed"`
 }
 
 type OutCmd struct {
@@ -117,9 +117,15 @@ func runPUnit(c *OutCase) {
 	e := task.NewExecutor(task.WithStdout(io.Discard), task.WithStderr(io.Discard))
 	// the logger the prefixed writer prints the prefix with (colour off)
 	p := output.NewPrefixed(loggerFor(e))
-	so, _, closer := p.WrapWriter(sink, sink, c.Prefix, nil)
-	for _, ch := range c.Cmds[0].Chunks {
-		_, _ = so.Write([]byte(ch))
+	so, se, closer := p.WrapWriter(sink, sink, c.Prefix, nil)
+	for i, ch := range c.Cmds[0].Chunks {
+		// stdout and stderr of a command are one stream of lines (a partial line on one is
+		// continued by the other)
+		if i%2 == 0 {
+			_, _ = so.Write([]byte(ch))
+		} else {
+			_, _ = se.Write([]byte(ch))
+		}
 	}
 	_ = closer(nil)
 	c.Sink = sink.writes
@@ -138,8 +144,12 @@ func runE2E(c *OutCase, r *rand.Rand) (sched.Result, error) {
 	var deps []string
 	for _, cmd := range c.Cmds {
 		var parts []string
-		for _, ch := range cmd.Chunks {
-			parts = append(parts, "printf '%s' "+shQuote(ch))
+		for j, ch := range cmd.Chunks {
+			if j%2 == 1 {
+				parts = append(parts, "printf '%s' "+shQuote(ch)+" >&2")
+			} else {
+				parts = append(parts, "printf '%s' "+shQuote(ch))
+			}
 		}
 		if cmd.Failed {
 			parts = append(parts, "exit 3")
@@ -173,7 +183,7 @@ func runE2E(c *OutCase, r *rand.Rand) (sched.Result, error) {
 		return sched.Result{}, err
 	}
 	ctl := sched.New()
-	e := task.NewExecutor(task.WithDir(dir), task.WithStdout(ctl.Writer("out")), task.WithStderr(io.Discard), task.WithSilent(true))
+	e := task.NewExecutor(task.WithDir(dir), task.WithStdout(ctl.Writer("out")), task.WithStderr(ctl.Writer("err")), task.WithSilent(true))
 	if err := e.Setup(); err != nil {
 		return sched.Result{}, fmt.Errorf("setup: %w\n%s", err, y)
 	}
